@@ -235,3 +235,199 @@ pub fn c04_id_twist_spiders(inp: &PV) -> PV {
     let tw_sp = OH::spider(FF::twist(a.len(), b.len()), FF::identity(a.len() + b.len()), b.coproduct(&a));
     PV::List(vec![pv_oh(&id), pv_opt_oh(id_sp), pv_oh(&tw), pv_opt_oh(tw_sp)])
 }
+
+// ------------------------------------------------------------------ C06 (finite functions)
+pub fn pv_ff(f: &FF) -> PV {
+    PV::FF(rd_ff(f))
+}
+pub fn pv_opt_ff(f: Option<FF>) -> PV {
+    match f {
+        None => PV::None,
+        Some(f) => PV::Some(Box::new(pv_ff(&f))),
+    }
+}
+fn ki(inp: &PV, i: usize) -> <K as ArrayKind>::I {
+    K::mk_i(inp.at(i).t())
+}
+pub fn c06_compose(inp: &PV) -> PV {
+    let (f, g) = (ff_raw(inp.at(0).ff()), ff_raw(inp.at(1).ff()));
+    PV::List(vec![pv_opt_ff(f.compose(&g)), pv_opt_ff(&f >> &g)])
+}
+pub fn c06_basic(inp: &PV) -> PV {
+    // inputs: a, b, x scalars
+    let (a, b, x) = (ki(inp, 0), ki(inp, 1), ki(inp, 2));
+    PV::List(vec![
+        pv_ff(&FF::identity(a.clone())),
+        pv_ff(&FF::initial(a.clone())),
+        pv_ff(&FF::terminal(a.clone())),
+        pv_ff(&FF::constant(a.clone(), x.clone(), b.clone())),
+        pv_ff(&FF::inj0(a.clone(), b.clone())),
+        pv_ff(&FF::inj1(a.clone(), b.clone())),
+        pv_ff(&FF::twist(a.clone(), b.clone())),
+        PV::T(K::rd_i(&FF::initial_object())),
+        PV::T(K::rd_i(&<FF as Monoidal>::unit())),
+    ])
+}
+pub fn c06_transpose(inp: &PV) -> PV {
+    let (a, b) = (ki(inp, 0), ki(inp, 1));
+    let t = FF::transpose(a.clone(), b.clone());
+    let u = FF::transpose(b, a);
+    PV::List(vec![pv_ff(&t), pv_opt_ff(t.compose(&u))])
+}
+pub fn c06_unary(inp: &PV) -> PV {
+    // inputs: f, a (scalar), labels (len = f.target concrete case)
+    let f = ff_raw(inp.at(0).ff());
+    let a = ki(inp, 1);
+    PV::List(vec![
+        pv_ff(&f.inject0(a.clone())),
+        pv_ff(&f.inject1(a.clone())),
+        pv_ff(&f.to_initial()),
+        pv_ff(&f.cumulative_sum()),
+        pv_bool(f.is_injective()),
+        PV::T(K::rd_i(&f.source())),
+        PV::T(K::rd_i(&f.target())),
+        pv_opt_ff(f.compose(&FF::inj0(f.target(), a.clone()))),
+        pv_opt_ff(f.compose(&FF::inj1(a.clone(), f.target()))),
+    ])
+}
+pub fn c06_binary(inp: &PV) -> PV {
+    let (f, g) = (ff_raw(inp.at(0).ff()), ff_raw(inp.at(1).ff()));
+    PV::List(vec![pv_opt_ff(f.coproduct(&g)), pv_opt_ff(&f + &g), pv_ff(&f.tensor(&g)), pv_ff(&(&f | &g)), pv_bool(f == g)])
+}
+pub fn c06_semifinite(inp: &PV) -> PV {
+    let f = ff_raw(inp.at(0).ff());
+    let l = sl(&inp.at(1).ts());
+    let r = compose_semifinite(&f, &l);
+    let r2 = &f >> &l;
+    let p = |r: Option<SL>| match r {
+        None => PV::None,
+        Some(x) => PV::Some(Box::new(pv_labels(&x))),
+    };
+    PV::List(vec![p(r), p(r2)])
+}
+pub fn c06_injections(inp: &PV) -> PV {
+    let (s, a) = (ff_raw(inp.at(0).ff()), ff_raw(inp.at(1).ff()));
+    pv_opt_ff(s.injections(&a))
+}
+pub fn c06_coequalizer(inp: &PV) -> PV {
+    let (f, g) = (ff_raw(inp.at(0).ff()), ff_raw(inp.at(1).ff()));
+    pv_opt_ff(f.coequalizer(&g))
+}
+pub fn c06_universal(inp: &PV) -> PV {
+    let (q, f) = (ff_raw(inp.at(0).ff()), ff_raw(inp.at(1).ff()));
+    let l = K::mk_ls(&inp.at(2).ts());
+    let a = q.coequalizer_universal(&f);
+    let b = coequalizer_universal::<K, L>(&q, &l);
+    PV::List(vec![
+        pv_opt_ff(a),
+        match b {
+            None => PV::None,
+            Some(x) => PV::Some(Box::new(PV::of_ts(&K::rd_ls(&x)))),
+        },
+    ])
+}
+
+// ------------------------------------------------------------------ C08 (segmented arrays)
+pub fn pv_icf(c: &ICF) -> PV {
+    PV::IC(rd_icf(c))
+}
+pub fn pv_icl(c: &ICL) -> PV {
+    PV::IC(rd_icl(c))
+}
+fn pv_opt<X>(o: Option<X>, f: impl Fn(&X) -> PV) -> PV {
+    match o {
+        None => PV::None,
+        Some(x) => PV::Some(Box::new(f(&x))),
+    }
+}
+/// checked constructors on raw data: inputs [sizes FF (raw), values FF (raw)]
+pub fn c08_new(inp: &PV) -> PV {
+    let (src, vals) = (ff_raw(inp.at(0).ff()), ff_raw(inp.at(1).ff()));
+    let a = IndexedCoproduct::new(src.clone(), vals.clone());
+    let b = IndexedCoproduct::from_semifinite(SemifiniteFunction(src.table.clone().into()), vals.clone());
+    let c = IndexedCoproduct::from_semifinite(SemifiniteFunction(src.table.clone().into()), sl(&inp.at(2).ts()));
+    PV::List(vec![pv_opt(a, pv_icf), pv_opt(b, pv_icf), pv_opt(c, pv_icl)])
+}
+pub fn c08_ctor(inp: &PV) -> PV {
+    let vals = ff_raw(inp.at(0).ff());
+    let labels = sl(&inp.at(1).ts());
+    let t = ki(inp, 2);
+    PV::List(vec![
+        pv_icf(&ICF::singleton(vals.clone())),
+        pv_icf(&ICF::elements(vals.clone())),
+        pv_icf(&ICF::initial(t)),
+        pv_icl(&ICL::singleton(labels.clone())),
+        pv_icl(&ICL::elements(labels)),
+    ])
+}
+pub fn c08_binary(inp: &PV) -> PV {
+    let (a, b) = (icf(inp.at(0).ic()), icf(inp.at(1).ic()));
+    let (la, lb) = (icl(inp.at(2).ic()), icl(inp.at(3).ic()));
+    PV::List(vec![pv_opt(a.coproduct(&b), pv_icf), pv_icf(&a.tensor(&b)), pv_opt(la.coproduct(&lb), pv_icl), PV::T(K::rd_i(&a.len())), pv_bool(a == b)])
+}
+pub fn c08_reindex(inp: &PV) -> PV {
+    let (a, la) = (icf(inp.at(0).ic()), icl(inp.at(1).ic()));
+    let x = ff_raw(inp.at(2).ff());
+    PV::List(vec![
+        pv_opt(a.map_indexes(&x), pv_icf),
+        pv_opt(a.indexed_values(&x), pv_ff),
+        pv_opt(la.map_indexes(&x), pv_icl),
+        pv_opt(la.indexed_values(&x), |l| pv_labels(l)),
+    ])
+}
+pub fn c08_mapvals(inp: &PV) -> PV {
+    let a = icf(inp.at(0).ic());
+    let f = ff_raw(inp.at(1).ff());
+    let l = sl(&inp.at(2).ts());
+    PV::List(vec![pv_opt(a.map_values(&f), pv_icf), pv_opt(a.map_semifinite(&l), pv_icl)])
+}
+pub fn c08_flatmap(inp: &PV) -> PV {
+    let (a, b) = (icf(inp.at(0).ic()), icf(inp.at(1).ic()));
+    pv_icf(&a.flatmap(&b))
+}
+pub fn c08_flatmap_sources(inp: &PV) -> PV {
+    let (a, b, lb) = (icf(inp.at(0).ic()), icf(inp.at(1).ic()), icl(inp.at(2).ic()));
+    PV::List(vec![pv_icf(&a.flatmap_sources(&b)), pv_icl(&a.flatmap_sources(&lb))])
+}
+pub fn c08_iter(inp: &PV) -> PV {
+    let (a, la) = (icf(inp.at(0).ic()), icl(inp.at(1).ic()));
+    let usz = |n: usize| PV::T(tm::c(n as u64, crate::explore::iw()));
+    let mut out = vec![];
+    {
+        let mut it = a.into_iter();
+        let mut items = vec![];
+        let mut lens = vec![];
+        loop {
+            let (lo, hi) = it.size_hint();
+            lens.push(PV::List(vec![usz(it.len()), usz(lo), match hi { Some(h) => usz(h), None => PV::None }]));
+            match it.next() {
+                Some(x) => items.push(pv_ff(&x)),
+                None => break,
+            }
+            if items.len() > 16 {
+                break;
+            }
+        }
+        out.push(PV::List(items));
+        out.push(PV::List(lens));
+    }
+    {
+        let mut it = la.into_iter();
+        let mut items = vec![];
+        let mut lens = vec![];
+        loop {
+            let (lo, hi) = it.size_hint();
+            lens.push(PV::List(vec![usz(it.len()), usz(lo), match hi { Some(h) => usz(h), None => PV::None }]));
+            match it.next() {
+                Some(x) => items.push(pv_labels(&x)),
+                None => break,
+            }
+            if items.len() > 16 {
+                break;
+            }
+        }
+        out.push(PV::List(items));
+        out.push(PV::List(lens));
+    }
+    PV::List(out)
+}
